@@ -307,24 +307,35 @@ def escapes(chk, P, rule="R-ESC"):
             if st_["k"] == "Break":
                 cur = []
     dec = {}
-    for c in im.calls("strncmp"):
-        a = args(c)
-        s = strip(a[1])
-        if s["k"] == "Str":
-            # the character assigned in the guarded block
-            par = im.par(c)
+    # the reader's entity table may sit in hwloc__nolibxml_import_next_attr itself or in a helper extracted from it: every
+    # strncmp(p, "ent;", n) of the unit whose guarded block yields a constant character (stored through a subscript or a pointer)
+    # and advances by a constant (escaped += k, or returns k to a caller that adds it)
+    for rf in P.unit("topology-xml-nolibxml.c").funcs(only_main=True):
+        for c in rf.calls("strncmp"):
+            a = args(c)
+            if len(a) < 3:
+                continue
+            s = strip(a[1])
+            if s["k"] != "Str" or not s["s"].endswith(";"):
+                continue
+            par = rf.par(c)
             while par is not None and par["k"] != "If":
-                par = im.par(par)
+                par = rf.par(par)
             chv = None
             adv = None
             if par is not None:
                 for y in subnodes(par["c"][1]):
                     aa = assigned(y)
-                    if aa and aa[1] == "=" and strip(aa[0])["k"] == "Sub" and aa[2] is not None and cval(aa[2]) is not None:
-                        chv = cval(aa[2])
-                    if aa and aa[1] == "+=" and lv(aa[0]) == "escaped":
+                    if aa and aa[1] == "=" and aa[2] is not None and cval(aa[2]) is not None:
+                        t9 = strip(aa[0])
+                        if t9["k"] == "Sub" or (t9["k"] == "Unary" and t9["op"] == "*"):
+                            chv = cval(aa[2])
+                    if aa and aa[1] == "+=" and aa[2] is not None and cval(aa[2]) is not None:
                         adv = cval(aa[2])
-            dec[s["s"]] = (chv, cval(a[2]), adv)
+                    if y["k"] == "Return" and y.get("c") and y["c"][0] is not None and cval(y["c"][0]) is not None and cval(y["c"][0]) > 0:
+                        adv = cval(y["c"][0])
+            if chv is not None:
+                dec[s["s"]] = (chv, cval(a[2]), adv)
     n = 0
     for ch, (lit, rep) in sorted(enc.items()):
         n += 1
